@@ -338,7 +338,7 @@ def _run(ctx, compare=True):
             # the model gives ABOR's own replies; a transfer that completed / timed out in the same instant adds its reply in front
             ok = (mm["alive"] == ("1" if alive else "0")) and (
                 aa == mrep
-                or (pos == "none" and aa[-1:] == mrep)
+                or (pos in ("none", "unreaped") and mrep != [] and aa[-1:] == mrep)
                 or (pos == "none" and aa[:1] == mrep and 150 in r_full.get((spec, k), []))
                 or (pos == "unreaped" and mrep == [] and aa in ([226], [200], [451], [425], []))
                 or (pos == "body" and aa in ([226, 226], [200, 226], [451, 226]))
